@@ -883,36 +883,89 @@ func pathCovers(k, q []string) bool { // k is a (wildcard-free) prefix of q
 	return true
 }
 
-// liveStores: stores that may still be visible at the current load for path q. A store is killed
-// when a later definite store covering q dominates the load (strong update).
+// liveStores: stores that may still be visible at the current load for path q. A store is visible when
+// some CFG path leads from it to the load without passing a later definite store that covers q
+// (strong update along paths; stores made by callees or closures are always visible).
 func (tb *TB) liveStores(a *ssa.Alloc, ci *cellInfo, q []string) []storeRec {
 	L := tb.curLoad
 	if L == nil || L.Parent() != a.Parent() {
 		return ci.stores
 	}
+	killers := tb.killersOf(ci, q, L)
 	var out []storeRec
-	for i, s := range ci.stores {
-		killed := false
-		if s.in != nil && s.in.Parent() == L.Parent() && !instrReaches(s.in, L) {
-			continue // the store cannot execute before the load on any path
+	for _, s := range ci.stores {
+		if s.in != nil && s.in.Parent() == L.Parent() && !reachesAvoiding(s.in, L, killers) {
+			continue
 		}
-		for j, k := range ci.stores {
-			if i == j || k.val == nil || k.ext != "" {
-				continue
-			}
-			if _, isStore := k.in.(*ssa.Store); !isStore {
-				continue
-			}
-			if pathCovers(k.path, q) && dominatesInstr(k.in, L) && dominatesInstr(s.in, k.in) {
-				killed = true
-				break
-			}
-		}
-		if !killed {
-			out = append(out, s)
-		}
+		out = append(out, s)
 	}
 	return out
+}
+
+func (tb *TB) killersOf(ci *cellInfo, q []string, L ssa.Instruction) map[ssa.Instruction]bool {
+	killers := map[ssa.Instruction]bool{}
+	for _, k := range ci.stores {
+		if k.val == nil || k.ext != "" || k.in == nil || k.in.Parent() != L.Parent() {
+			continue
+		}
+		if _, isStore := k.in.(*ssa.Store); !isStore {
+			continue
+		}
+		if pathCovers(k.path, q) {
+			killers[k.in] = true
+		}
+	}
+	return killers
+}
+
+// reachesAvoiding: some execution path runs from (after) instruction `from` to `to` without executing a killer.
+// A load in the recover block is reachable from everywhere.
+func reachesAvoiding(from, to ssa.Instruction, killers map[ssa.Instruction]bool) bool {
+	fb, tbk := from.Block(), to.Block()
+	if fb == nil || tbk == nil {
+		return true
+	}
+	if f := to.Parent(); f != nil && len(f.Blocks) > 0 && tbk != f.Blocks[0] && !BlocksReachableFrom(f.Blocks[0])[tbk] {
+		return true
+	}
+	// scan the rest of from's block
+	scan := func(b *ssa.BasicBlock, start int) (found, cont bool) {
+		for i := start; i < len(b.Instrs); i++ {
+			in := b.Instrs[i]
+			if in == to {
+				return true, false
+			}
+			if killers[in] && in != from {
+				return false, false
+			}
+		}
+		return false, true
+	}
+	found, cont := scan(fb, instrIndex(from)+1)
+	if found {
+		return true
+	}
+	if !cont {
+		return false
+	}
+	seen := map[*ssa.BasicBlock]bool{}
+	stack := append([]*ssa.BasicBlock(nil), fb.Succs...)
+	for len(stack) > 0 {
+		b := stack[len(stack)-1]
+		stack = stack[:len(stack)-1]
+		if seen[b] {
+			continue
+		}
+		seen[b] = true
+		found, cont := scan(b, 0)
+		if found {
+			return true
+		}
+		if cont {
+			stack = append(stack, b.Succs...)
+		}
+	}
+	return false
 }
 
 // cellContent: the join of everything that may be stored at path of alloc a (visible at the current load).
